@@ -280,24 +280,27 @@ def parse_counterexample(out: str) -> list[dict]:
 
 
 def parse_sim_file(path: Path) -> list[dict]:
-    """Parse one behaviour file written by `-simulate file=...`."""
+    """Parse one behaviour file written by `-simulate file=...`:
+    [{'n': 1, 'action': 'Init', 'vars': {...}}, ...]"""
     txt = Path(path).read_text()
     states = []
-    for m in re.finditer(r"\\\* <?(\w[\w ]*?)[ >].*?\nSTATE_(\d+) ==\n(.*?)(?=\n\n|\Z)", txt, flags=re.S):
-        act, n, body = m.group(1), int(m.group(2)), m.group(3)
+    parts = re.split(r"^\\\* <(\w+)[^\n]*\nSTATE_(\d+) ==[ ]*\n", txt, flags=re.M)
+    # parts: [pre, action1, n1, body1, action2, n2, body2, ...]
+    for k in range(1, len(parts) - 2, 3):
+        act, n, body = parts[k], int(parts[k + 1]), parts[k + 2]
+        body = body.split("\n\n")[0]
         vars_: dict[str, Any] = {}
-        for mm in re.finditer(r"^/?\\?\s*/\\ (\w+) = ", body, flags=re.M):
-            pass
-        chunks = re.split(r"^\s*/\\ ", body, flags=re.M)
-        for ch in chunks:
-            if not ch.strip():
-                continue
-            k, _, v = ch.partition(" = ")
+        ms = list(re.finditer(r"^/\\ (\w+) = ", body, flags=re.M))
+        for idx, m in enumerate(ms):
+            end = ms[idx + 1].start() if idx + 1 < len(ms) else len(body)
+            v = body[m.end():end].strip()
+            if v.endswith("===="):
+                v = v[: v.index("====")].strip()
             try:
-                vars_[k.strip()] = parse_value(v.strip())
+                vars_[m.group(1)] = parse_value(v)
             except Exception:
-                vars_[k.strip()] = v.strip()
-        states.append({"n": n, "action": act.strip(), "vars": vars_})
+                vars_[m.group(1)] = v
+        states.append({"n": n, "action": act, "vars": vars_})
     return states
 
 
